@@ -64,7 +64,8 @@ NoEv == [t |-> 0, k |-> "", op |-> "", x |-> 0, n |-> 0, vals |-> <<>>]
 L0 == [opi |-> 1, e |-> 0, v |-> 0]
 Col0 == [pc |-> "c_cons", tasks |-> <<>>, index |-> 0, running |-> TRUE, avail |-> 0, snap |-> <<>>, mark |-> 0,
          pidx |-> 0, seg |-> 1, room |-> 0, rest |-> 0, full |-> FALSE]
-H0(c) == [gen |-> [r \in 1..c.nreg |-> 0],   \* how often region r was entered
+H0(c) == [dep |-> [r \in 1..c.nreg |-> 0],   \* nesting depth of region r (lock_times of its slot)
+          gen |-> [r \in 1..c.nreg |-> 0],   \* how often region r was entered
           openAt |-> [i \in Ids |-> {}],      \* region instances open when retire(i) was called
           returned |-> {},                    \* retire(i) returned
           cnt |-> [i \in Ids |-> 0],          \* invocations of reclaimer i
@@ -97,8 +98,10 @@ Bad(b, name) == IF b THEN H.bad \cup {name} ELSE H.bad
 (***************************************************************************)
 (* client: critical regions (abstract epoch, two steps as in Epoch::lock)  *)
 (***************************************************************************)
+\* Regions nest: only the outermost lock reads the version and publishes it, only the matching unlock resets the
+\* slot - the entry epoch of a region is that of its OUTERMOST lock.
 EnterLoad(t) ==
-  /\ pc[t] = "idle" /\ HasOp(t) /\ Op(t).op = "enter"
+  /\ pc[t] = "idle" /\ HasOp(t) /\ Op(t).op = "enter" /\ H.dep[Op(t).x] = 0
   /\ SetL(t, [L[t] EXCEPT !.v = ver])
   /\ Goto(t, "e_pub")
   /\ H' = [H EXCEPT !.rds = @ \/ H.stopping]
@@ -108,18 +111,29 @@ EnterLoad(t) ==
 EnterPub(t) ==
   /\ pc[t] = "e_pub"
   /\ reg' = [reg EXCEPT ![Op(t).x] = L[t].v]
-  /\ H' = [H EXCEPT !.gen[Op(t).x] = @ + 1]
+  /\ H' = [H EXCEPT !.gen[Op(t).x] = @ + 1, !.dep[Op(t).x] = 1]
   /\ SetL(t, [L[t] EXCEPT !.opi = @ + 1, !.v = 0])
   /\ Goto(t, "idle")
   /\ ev' = [NoEv EXCEPT !.t = t, !.k = "epub", !.x = Op(t).x, !.n = L[t].v]
   /\ UNCHANGED <<cfg, ver, q, col>>
 
+EnterNested(t) ==
+  /\ pc[t] = "idle" /\ HasOp(t) /\ Op(t).op = "enter" /\ H.dep[Op(t).x] >= 1
+  /\ H' = [H EXCEPT !.dep[Op(t).x] = @ + 1]
+  /\ SetL(t, [L[t] EXCEPT !.opi = @ + 1])
+  /\ ev' = [NoEv EXCEPT !.t = t, !.k = "enest", !.x = Op(t).x]
+  /\ UNCHANGED <<cfg, ver, reg, q, col, pc>>
+
 Leave(t) ==
   /\ pc[t] = "idle" /\ HasOp(t) /\ Op(t).op = "leave"
-  /\ reg' = [reg EXCEPT ![Op(t).x] = MAXV]
+  /\ IF H.dep[Op(t).x] >= 2
+     THEN /\ ev' = [NoEv EXCEPT !.t = t, !.k = "lnest", !.x = Op(t).x]
+          /\ UNCHANGED reg
+     ELSE /\ reg' = [reg EXCEPT ![Op(t).x] = MAXV]
+          /\ ev' = [NoEv EXCEPT !.t = t, !.k = "eleave", !.x = Op(t).x]
+  /\ H' = [H EXCEPT !.dep[Op(t).x] = IF @ > 0 THEN @ - 1 ELSE 0]
   /\ SetL(t, [L[t] EXCEPT !.opi = @ + 1])
-  /\ ev' = [NoEv EXCEPT !.t = t, !.k = "eleave", !.x = Op(t).x]
-  /\ UNCHANGED <<cfg, ver, q, col, pc, H>>
+  /\ UNCHANGED <<cfg, ver, q, col, pc>>
 
 (***************************************************************************)
 (* retire                                                                  *)
@@ -302,7 +316,7 @@ Exit ==
 
 ColStep == ConsBegin \/ Take \/ Release \/ LwBegin \/ LwEnd \/ Invoke \/ Sleep \/ Exit
 
-Step(t) == EnterLoad(t) \/ EnterPub(t) \/ Leave(t) \/ Call(t) \/ RTick(t) \/ Ticket(t) \/ Fill(t) \/ Join(t) \/ Ret(t)
+Step(t) == EnterLoad(t) \/ EnterPub(t) \/ EnterNested(t) \/ Leave(t) \/ Call(t) \/ RTick(t) \/ Ticket(t) \/ Fill(t) \/ Join(t) \/ Ret(t)
 
 AllDone == \A t \in Thr : pc[t] = "idle" /\ ~HasOp(t)
 
